@@ -70,6 +70,7 @@ type Exec struct {
 	floatNonZero []*Term
 	reached      map[string]bool
 	onceDone     map[string]bool
+	pooled       map[int][]Value // sync.Pool model: values put, per pool object
 	nopanicDepth int
 }
 
@@ -507,4 +508,54 @@ func sortedStrings(m map[string]bool) []string {
 	}
 	sort.Strings(r)
 	return r
+}
+
+// guessModel evaluates pc ∧ extra under candidate assignments of the bit-vector inputs (all zero, all ones, all 0x7F,
+// pseudo-random); it returns an assignment satisfying all of them, or nil.
+func (e *Exec) guessModel(extra *Term) Model {
+	if extra == nil {
+		return nil
+	}
+	for _, in := range e.inputs {
+		if in.sort.K != KBV && in.sort.K != KBool {
+			return nil
+		}
+	}
+	seed := uint64(0x9E3779B97F4A7C15)
+	next := func() uint64 {
+		seed ^= seed << 13
+		seed ^= seed >> 7
+		seed ^= seed << 17
+		return seed
+	}
+	for try := 0; try < 64; try++ {
+		m := Model{}
+		for _, in := range e.inputs {
+			var v uint64
+			switch try {
+			case 0:
+				v = 0
+			case 1:
+				v = ^uint64(0)
+			case 2:
+				v = 0x7F7F7F7F7F7F7F7F
+			case 3:
+				v = 1
+			default:
+				v = next()
+				if try%2 == 0 {
+					v &= 0x7F7F7F7F7F7F7F7F
+				}
+			}
+			m[in.name] = v & maskSort(in.sort)
+		}
+		ok := Eval(extra, m) == 1
+		for i := 0; ok && i < len(e.pc); i++ {
+			ok = Eval(e.pc[i], m) == 1
+		}
+		if ok {
+			return m
+		}
+	}
+	return nil
 }
